@@ -151,6 +151,10 @@ func checkC11(c *Ctx, r *Report) {
 		r.Fatalf("%v", err)
 		return
 	}
+	glueBlocks(r, p386, "386", map[string]bool{"C11": true})
+	if g := newGlueRun(r, p386, "386", "sm4.NewCipher", nil); g != nil {
+		g.obligations("CALLSITE", "SLICE-BOUNDS", "INDEX-BOUNDS")
+	}
 	c11Reslice(r, p386, "386")
 	if pa, err := LoadRepo(c.Repo, "amd64"); err == nil {
 		c11Reslice(r, pa, "amd64")
@@ -171,7 +175,7 @@ func c11CallSites(r *Report, p *Prog, arch string, contracts map[string]*xContra
 		if len(fn.Blocks) == 0 || fn.Pkg == nil || shortPkg(fn.Pkg.Pkg.Path()) != "sm4" {
 			continue
 		}
-		if glueCovered(p, fn) {
+		if glueCovered(p, arch, fn) {
 			continue
 		}
 		var env *LinEnv
@@ -335,7 +339,7 @@ func c11Reslice(r *Report, p *Prog, arch string) {
 		if len(fn.Blocks) == 0 || fn.Pkg == nil || shortPkg(fn.Pkg.Pkg.Path()) != "sm4" {
 			continue
 		}
-		if glueCovered(p, fn) {
+		if glueCovered(p, arch, fn) {
 			continue
 		}
 		env := NewLinEnv(p, fn)
@@ -510,26 +514,29 @@ var glueRoots = map[string]bool{
 	"sm4.NewCipher": true, "sm4.encryptX2": true, "sm4.decryptX2": true,
 }
 
-// glueFollowed: unexported helpers the glue interpretation follows from its roots. They count as covered only while every
-// static caller is itself covered (otherwise the guard-fact analysis decides them as before).
-var glueFollowed = map[string]bool{"sm4.ensureCapacity": true, "sm4.newCipher": true, "sm4.newCipherGeneric": true}
+// glueCovered: fn is decided by the glue interpretation: it is an entry point of a glue run, or a helper that the runs of
+// this architecture followed and whose every static caller is covered as well (so no call context escapes the runs).
+func glueCovered(p *Prog, arch string, fn *ssa.Function) bool {
+	return glueCoveredRec(p, arch, fn, map[*ssa.Function]bool{})
+}
 
-func glueCovered(p *Prog, fn *ssa.Function) bool {
+func glueCoveredRec(p *Prog, arch string, fn *ssa.Function, busy map[*ssa.Function]bool) bool {
 	name := p.FuncName(fn)
 	if glueRoots[name] {
 		return true
 	}
-	if !glueFollowed[name] {
+	if !glueFollowedFns[arch][name] || busy[fn] {
 		return false
 	}
+	busy[fn] = true
+	defer delete(busy, fn)
 	n := 0
 	for _, caller := range p.RepoFuncs() {
 		for _, b := range caller.Blocks {
 			for _, in := range b.Instrs {
 				if call, ok := in.(*ssa.Call); ok && call.Call.StaticCallee() == fn {
 					n++
-					cn := p.FuncName(caller)
-					if !glueRoots[cn] && !glueFollowed[cn] {
+					if !glueCoveredRec(p, arch, caller, busy) {
 						return false
 					}
 				}
